@@ -25,6 +25,7 @@ def r1_pairing(ctx):
     qn = LS
     ps = ctx.paths(qn)
     n_open = 0
+    with_managed = False
     for p in ps:
         opens = [(i, e) for i, e in enumerate(p.events) if e.kind == "call" and callee(e.data[0]) in ("builtins.open", "io.open")]
         ispath = None
@@ -43,20 +44,23 @@ def r1_pairing(ctx):
             ctx.check("R1", "%s|opens-only-paths|%s" % (qn, tag), True if ispath is True else (False if ispath is False else None), "open() is reached only when fname has no readline",
                       bad="open() is called although fname is already a file object", fn=qn, line=e0.line)
             after = [c for i, c in closes if i > i0 and c.data[0][1][1] == h]
-            ctx.check("R1", "%s|close-on-every-exit|%s" % (qn, tag), True if after else False, "the opened handle is closed before this exit",
+            # `with open(...) as f:` closes the handle on every way out of the block, exceptions included (language semantics)
+            managed = any(e.kind == "with-enter" and e.data[0] == h for e in p.events)
+            with_managed = with_managed or managed
+            ctx.check("R1", "%s|close-on-every-exit|%s" % (qn, tag), True if after or managed else False, "the opened handle is closed before this exit",
                       bad="a path from open() to a %s exit never closes the handle" % kind, fn=qn, line=e0.line)
             tr = Q.first_index(p, lambda e: e.kind == "try-enter")
             between = [e for e in p.events[i0 + 1: tr if tr is not None else len(p.events)] if e.kind == "call"]
-            ctx.check("R1", "%s|nothing-raises-between-open-and-try|%s" % (qn, tag), (False if between else True) if tr is not None else False,
+            ctx.check("R1", "%s|nothing-raises-between-open-and-try|%s" % (qn, tag), True if managed else ((False if between else True) if tr is not None else False),
                       "no call lies between open() and the try block", bad="%s can raise after open() and before the try: the handle leaks" % (callee(between[0].data[0]) if between else "code outside any try"), fn=qn)
         else:
             bad = [c for _i, c in closes if ("param", "fname") in Q.leaves(c.data[0][1][1])]
             ctx.check("R1", "%s|callers-file-not-closed|%s" % (qn, tag), False if bad else True, "a file object given by the caller is not closed",
                       bad="the caller's file object is closed", fn=qn, line=bad[0].line if bad else None)
-    if n_open < 2:
+    if n_open < 2 and not with_managed:
         ctx.add("R1", qn + "|open-paths", "UNDECIDED", "expected a normal and an exceptional path through open()", fn=qn)
     exc = [p for p in ps if any(e.kind == "exception" for e in p.events)]
-    ctx.check("R1", qn + "|exceptional-path-analysed", True if exc else False, "the try has a finally block (an exceptional path through it exists)",
+    ctx.check("R1", qn + "|exceptional-path-analysed", True if exc or with_managed else False, "the try has a finally block (an exceptional path through it exists)",
               bad="there is no finally block: an exception in the body skips close()", fn=qn)
 
 
@@ -181,9 +185,22 @@ def r345_body(ctx):
         at = Q.arg(ctx, d, "attrs")
         oka = okf = None
         if isinstance(at, tuple) and at[0] == "dict":
-            dd = {k[1]: v for k, v in at[1] if k is not None and is_const(k)}
-            oka = True if dd.get("gridID") == Q.sub(h, 0) else (False if "gridID" not in dd else None)
-            okf = (True if dd.get("file") == ("param", "fname") else False) if ispath else (True if "file" not in dd else False)
+            dd, opaque = {}, False
+            def merge(pairs):
+                nonlocal opaque
+                for k, v in pairs:
+                    if k is None and v[0] == "dict":
+                        merge(v[1])            # {"gridID": id, **{"file": fname}}
+                    elif k is None or not is_const(k):
+                        opaque = True          # a spread / computed key the rule cannot see into
+                    else:
+                        dd[k[1]] = v
+            merge(at[1])
+            oka = True if dd.get("gridID") == Q.sub(h, 0) else (False if "gridID" not in dd and not opaque else None)
+            if ispath:
+                okf = True if dd.get("file") == ("param", "fname") else (False if not opaque and ("file" not in dd or is_const(dd["file"])) else None)
+            else:
+                okf = (True if "file" not in dd else False) if not opaque else (False if "file" in dd else None)
         ctx.check("R5", "%s|attrs-id|%s" % (qn, tag), oka, "attrs carry the grid id", bad="the grid id is missing from attrs", fn=qn)
         ctx.check("R5", "%s|attrs-file|%s" % (qn, tag), okf, "attrs carry the file name exactly when a path was given", bad="the 'file' attribute is %s" % ("missing for a path" if ispath else "set for a file object"), fn=qn)
     if n < 4:
@@ -196,6 +213,13 @@ def r345_body(ctx):
     ctx.check("R4", qn + "|raises|shape", True if sh else False, "a body whose shape differs from the header raises", bad="a shape mismatch between header and body is accepted", fn=qn)
     ctx.check("R4", qn + "|raises|range", True if rg else False, "a body whose (min, max) differs from the header range raises", bad="a data-range mismatch is accepted", fn=qn)
     ctx.check("R4", qn + "|raises-IOError", True if ioerr and (sh or rg) else None, "mismatches raise IOError", fn=qn)
+    # no way around the two comparisons: a normal exit on which the header shape / the header data range was never looked at accepts any
+    # header value for that body
+    for par, what in (("shape", "shape"), ("data_range", "data range")):
+        skipping = [p for p in ps if p.normal and not any(("param", par) in Q.leaves(c) for c, _v in p.conds)]
+        ctx.check("R4", "%s|no-exit-skips-the-%s-test" % (qn, par), False if skipping else True, "every normal exit has compared the %s with the header" % what,
+                  bad="a path returns normally without ever comparing the %s with the header (decisions on that path: %s)" % (what, "; ".join(show(c)[:50] for c, _v in skipping[0].conds) if skipping else ""),
+                  fn=qn, line=skipping[0].line if skipping else None)
     for p in ps:
         if p.exit == "raise" and rg:
             for x in walk(p.conds[-1][0]):
